@@ -175,6 +175,9 @@ func (this *Hnsw) Remove(id uuid.UUID) error {
 		for l := vertex.level; l >= 0; l-- {
 			vertex.edgeMutexes[l].RLock()
 			for neighbor, distance := range vertex.edges[l] {
+				if neighbor.isDeleted() {
+					continue
+				}
 				if distance < minDistance {
 					minDistance = distance
 					closestNeighbor = neighbor
@@ -185,6 +188,10 @@ func (this *Hnsw) Remove(id uuid.UUID) error {
 			if closestNeighbor != nil {
 				break
 			}
+		}
+		if closestNeighbor == nil {
+			// No live linked neighbor: hand over to any remaining vertex of the highest level
+			closestNeighbor = this.highestRemainingVertex()
 		}
 		atomic.CompareAndSwapPointer(&this.entrypoint, currEntrypoint, unsafe.Pointer(closestNeighbor))
 	}
@@ -211,6 +218,20 @@ func (this *Hnsw) Remove(id uuid.UUID) error {
 	}
 
 	return nil
+}
+
+func (this *Hnsw) highestRemainingVertex() *hnswVertex {
+	var highest *hnswVertex = nil
+	for i := range this.vertices {
+		this.verticesMu[i].RLock()
+		for _, vertex := range this.vertices[i] {
+			if highest == nil || vertex.level > highest.level {
+				highest = vertex
+			}
+		}
+		this.verticesMu[i].RUnlock()
+	}
+	return highest
 }
 
 func (this *Hnsw) Search(ctx context.Context, query math.Vector, k uint) (SearchResult, error) {
